@@ -418,7 +418,7 @@ def plan(ctx):
     spaces = [("F1", 1), ("X2", 2)] + ([] if quick else [("K3", 4), ("F2", 6)])
     tasks += sweep.plan_routes("checks.C19", routes.NAMES, spaces)
     tasks += sweep.plan_routes("checks.C19", routes.NAMES_SUB, [("F1", 1), ("X2", 2)])
-    tasks += sweep.plan_ctx("checks.C19", ctx.tier, BACKENDS)
+    tasks += sweep.plan_ctx("checks.C19", ctx.tier, BACKENDS, light=True)   # the delimiter-word task above already sweeps structure
     ctx.notes["context_routes"] = sweep.ctx_note()
     q, _ = impl.discover_quoter_configs(ctx.build["pkg"])
     for name in q:
